@@ -270,7 +270,7 @@ impl<const N: usize> UdpAssociateContext<N> {
                     match client_msg {
                         Some((content, peer_addr, session)) => {
                             debug!("[udp] recv from client; session={}", session);
-                            let resolved_addr = match peer_addr.to_socket_addr() {
+                            let resolved_addr = match peer_addr.resolve().await {
                                 Ok(addr) => addr,
                                 Err(e) => {
                                     // this datagram is lost, the association lives on
